@@ -510,6 +510,13 @@ def h5_api(timeout=300, part=None, **kw):
         sel = {"doc": ex.choice(2, "doc"), "otype": ex.choice(2, "otype"), "sink": ex.choice(len(API_SINKS), "sink"), "la": ex.choice(len(API_LA), "la"), "pages": ex.choice(len(API_PAGES), "pages"),
                "strip": ex.choice(2, "strip"), "nocache": ex.choice(2, "nocache"), "hist": ex.choice(len(API_HIST), "hist")}
         r = _api_check(sel)
+        if r is not None:
+            # the paths of this job run in one process: report a history that fails from a cold start (this one, or the same call after the other document / twice)
+            sc = core.self_contained("C11", "_api_check", sel, [dict(sel, hist=h) for h in range(len(API_HIST)) if h != sel["hist"]])
+            if sc is not None:
+                sel, r = sc
+            else:
+                r += "  [only after earlier histories of this run]"
         ex.require(r is None, r or "", sel=sel)
 
     def conc(m, info):
